@@ -1059,3 +1059,391 @@ def str_consts(body):
                 if c and "str" in c:
                     out.append((i, "term", c["str"], c.get("named")))
     return out
+
+
+# ------------------------------------------------------------------------------------------------
+# feasible paths (appended; used by the dirtiness-routine rules)
+
+class FA:
+    """Path feasibility over *enum-valued locals*: the relations of BA (path / reach / dominates /
+    edge_dominates) restricted to paths on which every `SwitchInt` on the discriminant of a local (or on a
+    bool local) whose value is *known* along that path takes the arm of that value.
+
+    A CFG join followed by a re-split on the joined value (`let v = if c {A} else {B}; match v {..}`, a
+    helper whose `Option`/`Result`/enum result is matched by the caller and that canon.py spliced in,
+    `dirty = X; .. match dirty`) creates block paths no execution takes; must-pass-through and dominance
+    over plain block reachability then report paths that do not exist. This class walks (block, env)
+    states instead, env: local -> abstract value
+        ("v", adt, variant, ((field, value), ..))   an enum aggregate (payload values where known)
+        ("b", bool)                                 a bool constant
+        ("disc", variant)                           discriminant of a known variant
+        ("discof", local)                           discriminant of a local whose variant is not known yet
+                                                    (the switch arm taken then fixes that local's variant)
+        ("call", bb, negated)                       the bool result of the call at block bb (possibly through `!`):
+                                                    both arms are feasible, but the arm taken tells the outcome
+                                                    of that call (call_outcomes) and fixes the local to it
+    propagated through whole-local moves/copies, variant downcast+field reads, aggregate construction, `!`
+    and `Try::branch` (Ok(x)/Some(x) -> Continue(x), Err/None -> Break) / `FromResidual::from_residual` (the
+    failure variant of the destination type). Everything else makes the local
+    unknown. Only locals that feed a switch discriminant are tracked, and never one whose address is taken
+    mutably or as a raw pointer. Unknown values take every arm, so the feasible paths are a superset of
+    the executable ones (a rule that looks for a path never loses one that can happen); a query that starts
+    in the middle of the body starts with nothing known."""
+
+    _cache = {}
+    STATE_CAP = 400000
+
+    @classmethod
+    def of(cls, body):
+        a = cls._cache.get(id(body))
+        if a is None:
+            a = cls(body)
+            cls._cache[id(body)] = a
+        return a
+
+    def __init__(self, body):
+        self.b = body
+        self.ba = BA.of(body)
+        self.tracked = self._tracked()
+        self._live = None
+
+    # ---- which locals are worth tracking ---------------------------------------------------
+    def _tracked(self):
+        b = self.b
+        excluded = set()
+        rel = set()
+        for blk in b.blocks:
+            for s in blk["stmts"]:
+                if s["s"] != "assign":
+                    continue
+                rv = s["rv"]
+                if (rv["k"] == "ref" and rv.get("mut")) or rv["k"] == "rawptr":
+                    excluded.add(rv["place"]["l"])
+            t = blk["term"]
+            if t["t"] == "switch":
+                p = op_place(t["discr"])
+                if p is not None and not p["p"]:
+                    rel.add(p["l"])
+        changed = True
+        while changed:
+            changed = False
+            for blk in b.blocks:
+                for s in blk["stmts"]:
+                    if s["s"] != "assign" or s["place"]["p"] or s["place"]["l"] not in rel:
+                        continue
+                    rv = s["rv"]
+                    src = []
+                    if rv["k"] == "use":
+                        src = [op_place(rv["op"])]
+                    elif rv["k"] == "unop" and rv["op"] == "Not":
+                        src = [op_place(rv["a"])]
+                    elif rv["k"] == "discr":
+                        src = [rv["place"]] if not rv["place"]["p"] else []
+                    elif rv["k"] == "agg" and rv.get("agg") == "adt":
+                        src = [op_place(o) for o in rv["ops"]]
+                    for p in src:
+                        if p is not None and p["l"] not in rel and all(e.startswith("as:") or e.startswith("f:") for e in p["p"]):
+                            rel.add(p["l"])
+                            changed = True
+                t = blk["term"]
+                if t["t"] == "call" and not t["dest"]["p"] and t["dest"]["l"] in rel and self._is_try_branch(t):
+                    p = op_place(t["args"][0])
+                    if p is not None and not p["p"] and p["l"] not in rel:
+                        rel.add(p["l"])
+                        changed = True
+        return rel - excluded
+
+    @staticmethod
+    def _is_try_branch(t):
+        return any(re.fullmatch(r"(<.* as )?core::ops::try_trait::Try>?::branch", p) for p in callee_paths(t)) and len(t.get("args", [])) == 1
+
+    # ---- abstract values --------------------------------------------------------------------
+    def _place_val(self, p, env):
+        v = env.get(p["l"])
+        proj = p["p"]
+        i = 0
+        while v is not None and i < len(proj):
+            e = proj[i]
+            if e.startswith("as:") and i + 1 < len(proj) and proj[i + 1].startswith("f:") and v[0] == "v" and v[2] == e[3:]:
+                v = dict(v[3]).get(proj[i + 1][2:].rsplit(".", 1)[-1])
+                i += 2
+            else:
+                return None
+        return v
+
+    def _op_val(self, o, env):
+        c = op_const(o)
+        if c is not None:
+            return ("b", c["bool"]) if "bool" in c else None
+        p = op_place(o)
+        return self._place_val(p, env) if p is not None else None
+
+    @staticmethod
+    def _kill(env, l):
+        env.pop(l, None)
+        for k in [k for k, v in env.items() if v[0] == "discof" and v[1] == l]:
+            del env[k]
+
+    def _assign(self, env, s):
+        dst = s["place"]
+        l = dst["l"]
+        if l not in self.tracked:
+            return
+        if dst["p"]:
+            self._kill(env, l)
+            return
+        rv = s["rv"]
+        k = rv["k"]
+        v = None
+        if k == "use":
+            v = self._op_val(rv["op"], env)
+        elif k == "unop" and rv["op"] == "Not":
+            a = self._op_val(rv["a"], env)
+            v = ("b", not a[1]) if a is not None and a[0] == "b" else (("call", a[1], not a[2]) if a is not None and a[0] == "call" else None)
+        elif k == "discr":
+            p = rv["place"]
+            if not p["p"]:
+                pv = env.get(p["l"])
+                if pv is not None and pv[0] == "v":
+                    v = ("disc", pv[2])
+                elif p["l"] in self.tracked and p["l"] != l:
+                    v = ("discof", p["l"])
+        elif k == "agg" and rv.get("agg") == "adt" and rv.get("variant") is not None:
+            pay = []
+            for f, o in zip(rv.get("fields", []), rv["ops"]):
+                ov = self._op_val(o, env)
+                if ov is not None and ov[0] in ("v", "b"):
+                    pay.append((f, ov))
+            v = ("v", rv["adt"], rv["variant"], tuple(pay))
+        self._kill(env, l)
+        if v is not None:
+            env[l] = v
+
+    def _branch_val(self, t, env):
+        a = self._op_val(t["args"][0], env)
+        if a is None or a[0] != "v":
+            return None
+        cf = "core::ops::control_flow::ControlFlow"
+        if a[1] == "core::result::Result" and a[2] == "Ok" or a[1] == "core::option::Option" and a[2] == "Some":
+            return ("v", cf, "Continue", a[3])
+        if a[1] == "core::result::Result" and a[2] == "Err" or a[1] == "core::option::Option" and a[2] == "None":
+            return ("v", cf, "Break", ())
+        return None
+
+    def env_before_term(self, bb, envt):
+        """The environment (dict) after the statements of bb, before its terminator acts."""
+        env = dict(envt)
+        for s in self.b.blocks[bb]["stmts"]:
+            if s["s"] == "assign":
+                self._assign(env, s)
+        return env
+
+    def step(self, bb, envt=()):
+        """Successor states [(block, env-tuple)] of executing block bb under the env-tuple `envt` (public form)."""
+        return self._step(bb, envt)
+
+    def _step(self, bb, envt):
+        """Successor states [(block, env-tuple)] of executing block bb under env."""
+        blk = self.b.blocks[bb]
+        env = self.env_before_term(bb, envt)
+        t = blk["term"]
+        k = t["t"]
+        succ = self.b.succ(bb)
+        if k == "call":
+            d = t["dest"]
+            if d["l"] in self.tracked:
+                v = None
+                if not d["p"] and self._is_try_branch(t):
+                    v = self._branch_val(t, env)
+                elif not d["p"] and any(re.fullmatch(r"(<.* as )?core::ops::try_trait::FromResidual(<.*>)?>?::from_residual", q) for q in callee_paths(t)):
+                    # the residual of `?` is the failure half by type (Result<Infallible, E> / Option<Infallible>):
+                    # what from_residual builds is the failure variant of the destination type
+                    ty = self.b.locals[d["l"]]
+                    for adt, var in (("core::result::Result", "Err"), ("core::option::Option", "None"), ("core::ops::control_flow::ControlFlow", "Break")):
+                        if ty.startswith(adt + "<"):
+                            v = ("v", adt, var, ())
+                if v is None and not d["p"] and self.b.locals[d["l"]] == "bool":
+                    v = ("call", bb, False)
+                self._kill(env, d["l"])
+                if v is not None:
+                    env[d["l"]] = v
+        elif k == "yield":
+            ra = t.get("resume_arg")
+            if ra is not None and ra["l"] in self.tracked:
+                self._kill(env, ra["l"])
+        elif k == "switch" and len(succ) > 1:
+            p = op_place(t["discr"])
+            v = env.get(p["l"]) if p is not None and not p["p"] else None
+            arms = {a: tg for a, tg in t["arms"]}
+            if v is not None and v[0] == "b":
+                tg = arms.get(1 if v[1] else 0, t["otherwise"])
+                succ = [x for x in succ if x == tg]
+            elif v is not None and v[0] == "call":
+                out = []
+                for x in succ:
+                    val = (x != arms.get(0)) if 0 in arms else None
+                    e2 = dict(env)
+                    if val is not None:
+                        e2[p["l"]] = ("b", val)
+                    out.append((x, self._freeze(e2)))
+                return out
+            elif v is not None and v[0] == "disc" and t.get("enum_variants"):
+                val = {n: dv for dv, n in t["enum_variants"]}.get(v[1])
+                if val is not None:
+                    tg = arms.get(val, t["otherwise"])
+                    succ = [x for x in succ if x == tg]
+            elif v is not None and v[0] == "discof" and t.get("enum_variants") and t.get("enum"):
+                names = {dv: n for dv, n in t["enum_variants"]}
+                out = []
+                seen_t = set()
+                for a, tg in t["arms"]:
+                    if tg not in succ or a not in names:
+                        continue
+                    e2 = dict(env)
+                    self._kill(e2, v[1])
+                    e2[v[1]] = ("v", t["enum"], names[a], ())
+                    e2[p["l"]] = ("disc", names[a])
+                    out.append((tg, self._freeze(e2)))
+                    seen_t.add(a)
+                if t["otherwise"] in succ:
+                    rest = [n for dv, n in t["enum_variants"] if dv not in arms]
+                    e2 = dict(env)
+                    if len(rest) == 1:
+                        self._kill(e2, v[1])
+                        e2[v[1]] = ("v", t["enum"], rest[0], ())
+                    out.append((t["otherwise"], self._freeze(e2)))
+                return out
+        fe = self._freeze(env)
+        return [(x, fe) for x in succ]
+
+    @staticmethod
+    def _freeze(env):
+        return tuple(sorted(env.items()))
+
+    # ---- relations --------------------------------------------------------------------------
+    def call_outcomes(self, cbb):
+        """{True: [state..], False: [state..]}: the (block, env) states entered by the first branch that decides on
+        the bool result of the call at block cbb - directly, through `!`, or after the result was stored in a
+        local next to constants (`let c = a && f();  ..  if c`). States can be handed to path(.., states=..)."""
+        out = {True: [], False: []}
+        seen = set()
+        todo = [(cbb, ())]
+        first = True
+        while todo:
+            st = todo.pop()
+            if st in seen:
+                continue
+            seen.add(st)
+            if len(seen) > self.STATE_CAP:
+                return {True: [], False: []}
+            bb, envt = st
+            if bb == cbb and not first:
+                continue
+            first = False
+            t = self.b.blocks[bb]["term"]
+            if t["t"] == "switch":
+                env = self.env_before_term(bb, envt)
+                p = op_place(t["discr"])
+                v = env.get(p["l"]) if p is not None and not p["p"] else None
+                if v is not None and v[0] == "call" and v[1] == cbb:
+                    f_t = {a: tg for a, tg in t["arms"]}.get(0)
+                    for (x, e) in self._step(bb, envt):
+                        taken_true = x != f_t
+                        out[taken_true != v[2]].append((x, e))
+                    continue
+            for n in self._step(bb, envt):
+                # only while the call's result is still around
+                if any(val[0] == "call" and val[1] == cbb for _, val in n[1]) or bb == cbb:
+                    todo.append(n)
+        return out
+
+    def _search(self, starts, goal, avoid, cut_edges, incl, want_path, states=()):
+        goal = None if goal is None else set(goal)
+        prev = {}
+        dq = deque()
+        seen_blocks = set()
+
+        def push(st, pr):
+            if st in prev:
+                return False
+            prev[st] = pr
+            dq.append(st)
+            seen_blocks.add(st[0])
+            return True
+
+        def unwind(st, head=None):
+            out = [st[0]]
+            p = prev[st]
+            while p is not None:
+                if isinstance(p, int):
+                    out.append(p)
+                    break
+                out.append(p[0])
+                p = prev[p]
+            return list(reversed(out))
+
+        for st in states:
+            if st[0] in avoid:
+                continue
+            if push(st, None) and goal is not None and st[0] in goal:
+                return unwind(st) if want_path else True
+        if incl:
+            for s in starts:
+                if s in avoid:
+                    continue
+                st = (s, ())
+                if push(st, None) and goal is not None and s in goal:
+                    return unwind(st) if want_path else True
+        else:
+            for s in starts:
+                for (x, e) in self._step(s, ()):
+                    if (s, x) in cut_edges or x in avoid:
+                        continue
+                    st = (x, e)
+                    if push(st, s) and goal is not None and x in goal:
+                        return unwind(st) if want_path else True
+        while dq:
+            if len(prev) > self.STATE_CAP:
+                return "cap"
+            st = dq.popleft()
+            for (x, e) in self._step(st[0], st[1]):
+                if (st[0], x) in cut_edges or x in avoid:
+                    continue
+                n = (x, e)
+                if push(n, st) and goal is not None and x in goal:
+                    return unwind(n) if want_path else True
+        return seen_blocks if goal is None else None
+
+    def path(self, starts, goal, avoid=frozenset(), cut_edges=frozenset(), incl=False, states=()):
+        """A feasible witness path (list of blocks) from a start block (nothing known on entry) or from one of the
+        given (block, env) `states` to a block of `goal`, or None."""
+        r = self._search(list(starts), list(goal), frozenset(avoid), frozenset(cut_edges), incl, True, states=tuple(states))
+        if r == "cap":
+            return self.ba.path(list(starts) + [st[0] for st in states], goal, avoid=frozenset(avoid), cut_edges=frozenset(cut_edges), incl=True if states else incl)
+        return r
+
+    def reach_incl(self, starts, avoid=frozenset(), cut_edges=frozenset()):
+        r = self._search(list(starts), None, frozenset(avoid), frozenset(cut_edges), True, False)
+        if r == "cap":
+            return self.ba.reach_incl(starts, avoid=frozenset(avoid), cut_edges=frozenset(cut_edges))
+        return r
+
+    @property
+    def live(self):
+        if self._live is None:
+            self._live = self.reach_incl([0])
+        return self._live
+
+    def dominates(self, a, b):
+        """Every feasible entry->b path passes a (False when b is not feasibly reachable, as BA.dominates)."""
+        if b not in self.live:
+            return False
+        if a == b:
+            return True
+        return self.path([0], [b], avoid=frozenset([a]), incl=True) is None
+
+    def edge_dominates(self, edge, b):
+        """Every feasible entry->b path uses `edge` (s,t)."""
+        if b not in self.live:
+            return True
+        return self.path([0], [b], cut_edges=frozenset([edge]), incl=True) is None
